@@ -144,17 +144,14 @@ def digest(node) -> str:
 
 # Golden AST digests of the code modelled by hand (computed on the repaired tree; see `--pins` below).
 PINS = {
-    ("storage_backend.py", "S3RangeFile", "seek"): "8b392516a7d9bd1f",
-    ("storage_backend.py", "S3RangeFile", "readinto"): "d939e4d664fe44b5",
-    ("storage_backend.py", "S3RangeFile", "readall"): "ebd24504ac6bb035",
-    ("storage_backend.py", "S3RangeFile", "_get_range"): "4a98dbc3f6085381",
+    # S3RangeFile (seek / readinto / readall / _get_range / __init__ / tell) and S3StorageBackend.open_seekable /
+    # open_file / read_file_with_etag / write_file_cas are translated / pinned by translator/gen_range.py (Gen/GenRange.v)
     ("storage_backend.py", "S3StorageBackend", "exists"): "f37d50647af42d66",
     ("storage_backend.py", "S3StorageBackend", "read_file"): "6646c78ffeb314ca",
     ("storage_backend.py", "S3StorageBackend", "write_file"): "f30eb5c5c25229fe",
     ("storage_backend.py", "S3StorageBackend", "delete_file"): "0e86bb7fbb8da036",
     ("storage_backend.py", "S3StorageBackend", "get_size"): "cfac8d9aa0568390",
     ("storage_backend.py", "S3StorageBackend", "get_modified_time"): "449e7e050b52ae0f",
-    ("storage_backend.py", "S3StorageBackend", "open_seekable"): "82247d7acd6ed974",
     ("s3_consistency.py", "S3ConsistencyHandler", "retry_with_backoff"): "b03f7762df6c4a38",
     ("s3_consistency.py", None, "is_permanent_s3_error"): "2eb67e15b8e93edb",
     ("s3_consistency.py", None, "with_s3_retry"): "c4b431e6f349bb3e",
